@@ -1,5 +1,5 @@
 #!/bin/bash
-# C09 fires on the unchanged tree (three genuine defects, see candidate-fixes.diff), so `/verif/run-mutants C09`
+# HISTORICAL (the fixes are in /repo since bd2f378: use /verif/run-mutants C09). C09 fired on the unchanged tree (three genuine defects, see candidate-fixes.diff), so `/verif/run-mutants C09`
 # reports DETECTED for every patch trivially. This script shows the mutant-specific detection: every mutant is
 # applied ON TOP OF the candidate fixes (scratch worktree, /repo untouched); the fixed tree alone must be quiet.
 #   usage: mutants-on-fixed.sh [patch ...]      (default: the fixed tree alone, then all mutants/C09-*.patch)
